@@ -52,6 +52,9 @@ CLAIMED = {
  "C16": dict(technique=T_S,
    text="Sample / SetLimit / NotifyOnChange sequences for every limit and wrapper: a changed estimate notified every registered listener, the last delivered value equals EstimatedLimit, wrappers report their delegate's estimate and traced forwards samples unchanged.",
    ref="DESIGN 7 C16", note="depth 5-7"),
+ "C17": dict(technique=T_T + " in a -race build: ThreadSanitizer happens-before analysis as the per-execution monitor, scheduler hand-offs hidden from it",
+   text="Every unordered pair of exported calls (incl. a call with itself) on a shared instance of every limit, strategy, partition, limiter, measurement and registry type runs as two threads; all interleavings within the preemption bound are enumerated and every execution is monitored by the race detector; calibration scenarios prove on every run that the monitor is neither blinded nor triggered by the scheduler.",
+   ref="DESIGN 7 C17", note="pairs of calls (triples not built); reports are deduplicated per process by the detector; vrt is //go:norace and adds no happens-before edge of its own"),
  "C18": dict(technique=T_S + " with twin probes after Reset",
    text="Add/Get/Reset/Update sequences for every measurement type against reference folds; after every Reset the instance and a new one are driven with every continuation of length <= 3 and must agree; sample-window summaries checked for every permutation.",
    ref="DESIGN 7 C18", note="depth 6 (quick) / 8 (thorough)"),
